@@ -441,25 +441,60 @@ fn preorder(t: &T) -> Vec<&T> {
 fn check_decoders(rep: &mut OracleReport, b: &[u8]) {
     rep.evaluations += 1;
     let hx = if b.len() <= 200 { hex_or_dash(b) } else { format!("<{} bytes: {}…>", b.len(), hex::encode(&b[..24])) };
+    use crate::alloctrack::measure;
+    let mut peaks: Vec<(&str, usize)> = vec![];
     let de = std::panic::catch_unwind(|| {
+        // the allocator pre-allocates its own heap: created outside the measured region
         let mut a = Allocator::new();
         let mut c = Cursor::new(b);
-        node_from_stream(&mut a, &mut c).map(|n| (trees::from_node(&a, n), c.position()))
+        let (r, peak) = measure(|| node_from_stream(&mut a, &mut c));
+        (r.map(|n| (trees::from_node(&a, n), c.position())), peak)
+    })
+    .map(|(r, p)| {
+        peaks.push(("node_from_stream", p));
+        r
     });
     let th = std::panic::catch_unwind(|| {
         let mut c = Cursor::new(b);
-        tree_hash_from_stream(&mut c).map(|h| (h, c.position()))
+        measure(|| tree_hash_from_stream(&mut c).map(|h| (h, c.position())))
+    })
+    .map(|(r, p)| {
+        peaks.push(("tree_hash_from_stream", p));
+        r
     });
     let tr1 = std::panic::catch_unwind(|| {
         let mut c = Cursor::new(b);
-        parse_triples(&mut c, true).map(|(r, h)| (r, h, c.position()))
+        measure(|| parse_triples(&mut c, true).map(|(r, h)| (r, h, c.position())))
+    })
+    .map(|(r, p)| {
+        peaks.push(("parse_triples(true)", p));
+        r
     });
     let tr0 = std::panic::catch_unwind(|| {
         let mut c = Cursor::new(b);
-        parse_triples(&mut c, false).map(|(r, h)| (r, h, c.position()))
+        measure(|| parse_triples(&mut c, false).map(|(r, h)| (r, h, c.position())))
+    })
+    .map(|(r, p)| {
+        peaks.push(("parse_triples(false)", p));
+        r
     });
-    let canon = std::panic::catch_unwind(|| is_canonical_serialization(b));
-    let lent = std::panic::catch_unwind(|| serialized_length_from_bytes_trusted(b).is_ok());
+    let canon = std::panic::catch_unwind(|| measure(|| is_canonical_serialization(b))).map(|(r, p)| {
+        peaks.push(("is_canonical_serialization", p));
+        r
+    });
+    let lent = std::panic::catch_unwind(|| measure(|| serialized_length_from_bytes_trusted(b).is_ok())).map(|(r, p)| {
+        peaks.push(("serialized_length_from_bytes_trusted", p));
+        r
+    });
+    // "without over-allocating": every buffer a decoder requests is bounded by what it has actually read.
+    // The largest legitimate requests are the doubling result vectors (one 32-byte hash and one triple per
+    // input byte at most) and the allocator's heap: 128 bytes per input byte plus a constant covers them;
+    // a buffer sized by a *declared* atom length does not fit once the declaration exceeds that.
+    for (who, peak) in &peaks {
+        if *peak > 128 * b.len() + (1 << 16) {
+            rep.fail("dec_alloc", format!("input={} ({} bytes) {} requested {} bytes in one allocation", hx, b.len(), who, peak));
+        }
+    }
     let (Ok(de), Ok(th), Ok(tr1), Ok(tr0), Ok(canon), Ok(_)) = (de, th, tr1, tr0, canon, lent) else {
         rep.fail("dec_total", format!("input={} a decoder panicked", hx));
         return;
@@ -603,6 +638,21 @@ pub fn oracle_decoders(rng: &mut Rng, n: usize, tier: &str) -> OracleReport {
                     check_decoders(&mut rep, &[f, x, y]);
                 }
             }
+        }
+    }
+    // size prefixes that declare far more than the input holds (payload absent, a few bytes, or 1000 bytes),
+    // alone and as either child of a pair: rejected, and nothing sized by the declaration is requested
+    for prefix in [&[0xe1u8, 0x00, 0x00][..], &[0xef, 0xff, 0xff], &[0xf0, 0x20, 0x00, 0x00], &[0xf4, 0x00, 0x00, 0x00], &[0xf7, 0xff, 0xff, 0xff], &[0xf8, 0x08, 0x00, 0x00, 0x00]] {
+        for payload in [0usize, 5, 1000] {
+            let mut atom = prefix.to_vec();
+            atom.extend(std::iter::repeat(0x61).take(payload));
+            check_decoders(&mut rep, &atom);
+            let mut left = vec![0xff];
+            left.extend_from_slice(&atom);
+            check_decoders(&mut rep, &left);
+            let mut right = vec![0xff, 0x01];
+            right.extend_from_slice(&atom);
+            check_decoders(&mut rep, &right);
         }
     }
     for l in boundary_lengths(tier) {
